@@ -67,8 +67,8 @@ CHECKS += [
 
 CHECKS += [
     {"id": "C12", "category": "model_checking", "technique": "TLA+ reference grammar (Codec.tla, WireSchema.tla) + TLC trace validation of decoder tables and accept/reject verdicts; robustness oracles in the harness",
-     "text": "Codec.tla is a reference decoder for the RFC 9420 presentation language (uintN, shortest-form variable-length integers, opaque<V>, vector<V>, optional); every byte string of length <= 3 (thorough 4) over a boundary alphabet is decoded by the implementation's primitives and TLC compares value and consumed length; the complete PrivateMessage and Welcome schemas give an exact accept/reject oracle for authentic and mutated messages; all inputs (authentic, truncated, boundary-valued, non-minimal prefixes, random) are decoded under catch_unwind with a counting allocator and must re-encode to the consumed bytes with mls_encoded_len equal to the written length.",
-     "note": "universal statements over all byte strings / all values are sampled; schemas for PublicMessage bodies, GroupInfo, KeyPackage and stored snapshots are not transcribed (robustness oracles only)"},
+     "text": "Codec.tla is a reference decoder for the RFC 9420 presentation language (uintN, shortest-form variable-length integers, opaque<V>, vector<V>, optional); every byte string of length <= 3 (thorough 4) over a boundary alphabet is decoded by the implementation's primitives and TLC compares value and consumed length; the complete schemas of all five wire formats (PublicMessage with Proposal / Commit / UpdatePath bodies, PrivateMessage, Welcome, GroupInfo, KeyPackage with LeafNode, Credential, Capabilities, Extension lists) give an exact accept/reject oracle for authentic and mutated messages; all inputs (authentic, truncated, boundary-valued, non-minimal prefixes, random) are decoded under catch_unwind with a counting allocator and must re-encode to the consumed bytes with mls_encoded_len equal to the written length.",
+     "note": "universal statements over all byte strings / all values are sampled; the grammar follows mls-rs where it is stricter than the RFC (leaf indices below 2^24, no duplicate extension type in a list, reserved proposal type 0); stored snapshots are covered by the size stage and the round-trip oracles, not by a grammar"},
     {"id": "C13", "category": "model_checking", "technique": "TLA+ transcription of the RFC 9420 derivation graph (KeySchedule.tla) + TLC validation of provenance trees recorded from the crypto provider",
      "text": "A recording CipherSuiteProvider logs every kdf_extract / kdf_expand / hash / mac while real groups run seeded scenarios; for every API-visible value (epoch authenticator, exported secret, message key and nonce given to aead_seal, confirmed transcript hash) the harness emits the tree of recorded calls that produced it, knowing nothing about the formulas; TLC matches each tree against KeySchedule.tla: label strings with the MLS 1.0 prefix, contexts, both length fields, Extract salt/ikm roles, PSK index/count chain, secret-tree left/right positions (TreeMath), ratchet generations. Every recorded call is also re-evaluated with the other shipped providers.",
      "note": "primitives trusted as functions; values produced before recording starts (creation epoch) or received through HPKE are accepted as inputs; besides API-visible values, claims are made for provider *calls*: the key of every MAC (confirmation / membership), the key and nonce of every AEAD seal (message key, sender-data key, welcome key) and the input of every KEM key derivation (TreeKEM node secrets along the path-secret chain, external key pair) must have the RFC derivation shape"},
